@@ -1,6 +1,6 @@
 #![allow(non_camel_case_types, non_snake_case, dead_code)]
 #[tarpc::service]
-pub trait Rej61 {
-    async fn serve(a0: i32, a1: i32) -> String;
+pub trait Rej48 {
+    async fn a_b(ctx: tarpc::context::Context);
 }
 fn main() {}
